@@ -330,7 +330,10 @@ class NumpyDataWrapper(SourceDataWrapper):
         """
 
         if self._dtype == self._data_source.dtype:
-            return self._data_source[start:stop]
+            if stop is None:
+                stop = self._n_rows
+            # start and stop are counted from the first row to be loaded (from_idx), like in the general case
+            return self._data_source[self._from_idx + start:self._from_idx + stop]
 
         return super().load_chunk(start, stop)
 
